@@ -383,8 +383,17 @@ Definition format_number_body (args : list value) : res :=
   else format_number_finish args num (-1)%Z).
 
 (* DateFromParts / TimeFromParts: dates.NewDate / NewTimeOfDay normalise, the value is opaque *)
+Definition leap_year (y : Z) : bool := (((y mod 4 =? 0) && negb (y mod 100 =? 0)) || (y mod 400 =? 0))%Z.
+Definition days_in_month (y m : Z) : Z :=
+  (if m =? 2 then (if leap_year y then 29 else 28)
+   else if (m =? 4) || (m =? 6) || (m =? 9) || (m =? 11) then 30 else 31)%Z.
+
+(* e042b83: the year is 1-9999, the month 1-12 and the day a day of that month (time.Date(year, month+1, 0).Day()) *)
 Definition date_from_parts_body (year month day : Z) : res :=
-  if ((month <? 1) || (12 <? month))%Z then Ret VErr else Ret (VOpaque KDate []).
+  if ((year <? 1) || (9999 <? year))%Z then Ret VErr
+  else if ((month <? 1) || (12 <? month))%Z then Ret VErr
+  else if ((day <? 1) || (days_in_month year month <? day))%Z then Ret VErr
+  else Ret (VOpaque KDate []).
 
 Definition time_from_parts_body (hour minute second : Z) : res :=
   if ((hour <? 0) || (23 <? hour))%Z then Ret VErr
